@@ -26,7 +26,7 @@ theorem Inv.wTake {s : State} (hI : Inv s) {h n ver : Nat} (hp : s.pc (.fr h) = 
       rw [hnt] at this; cases this
   obtain ⟨kindC, kindF, lockOk, frWait, freshOk, freshUniq, freshVer, freshVerT, freshNode, wFreeTaken, preOk, postOk, ownOk, rsmTaken,
     freeTaken, pubNode, waiting, parked, listOk, scanOk, prevOk, placed, oScanOk, oNoneOk, aUnlockOk, aNextOk, aResumeOk, aFreeOk,
-    noRead, cTakeOk, allocUsed, noBad⟩ := hI
+    noRead, cTakeOk, cRemoveOk, allocUsed, noBad⟩ := hI
   constructor
   case kindC => inv_auto
   case kindF => inv_auto
@@ -75,6 +75,7 @@ theorem Inv.wTake {s : State} (hI : Inv s) {h n ver : Nat} (hp : s.pc (.fr h) = 
   case aFreeOk => inv_auto
   case noRead => inv_auto
   case cTakeOk => inv_auto
+  case cRemoveOk => inv_auto
   case allocUsed => inv_auto
   case noBad => inv_auto
 
@@ -107,7 +108,7 @@ theorem Inv.cTakeOk' {s : State} (hI : Inv s) {a : Actor} {n ver : Nat} (hp : s.
       rw [hnt] at this; cases this
   obtain ⟨kindC, kindF, lockOk, frWait, freshOk, freshUniq, freshVer, freshVerT, freshNode, wFreeTaken, preOk, postOk, ownOk, rsmTaken,
     freeTaken, pubNode, waiting, parked, listOk, scanOk, prevOk, placed, oScanOk, oNoneOk, aUnlockOk, aNextOk, aResumeOk, aFreeOk,
-    noRead, cTakeOk, allocUsed, noBad⟩ := hI
+    noRead, cTakeOk, cRemoveOk, allocUsed, noBad⟩ := hI
   constructor
   case kindC => inv_auto
   case kindF => inv_auto
@@ -154,6 +155,7 @@ theorem Inv.cTakeOk' {s : State} (hI : Inv s) {a : Actor} {n ver : Nat} (hp : s.
   case aFreeOk => inv_auto
   case noRead => inv_auto
   case cTakeOk => inv_auto
+  case cRemoveOk => inv_auto
   case allocUsed => inv_auto
   case noBad => inv_auto
 
